@@ -86,6 +86,56 @@ class Disc1D:
             attrs["limiter"] = limiter
         return ci, SelfObj(ci, attrs)
 
+    def stage_plan(self, num_ci):
+        """the self.<stage>() calls of rhs() in execution order for a reconstruction object of class
+        num_ci: conditions on attributes of self.num are decided with the constructor summary of
+        that class (order of assignments and base-constructor calls respected)"""
+        import ast
+        rhs = self.proj.resolve(self.fvm_cls, "rhs")
+        if rhs is None:
+            raise AnalysisError("%s.rhs not found" % self.fvm_cls.qualname)
+        sn = rhs.params[0]
+        summ = self.proj.ctor_summary(num_ci)
+
+        def val(e):
+            if isinstance(e, ast.Constant):
+                return e.value
+            if isinstance(e, ast.Attribute) and isinstance(e.value, ast.Attribute) and isinstance(e.value.value, ast.Name) and e.value.value.id == sn and e.value.attr == "num":
+                kind, v = summ.get(e.attr, (None, None))
+                if kind == "const":
+                    return v
+                raise AnalysisError("rhs: self.num.%s is not a constant of class %s" % (e.attr, num_ci.qualname))
+            raise AnalysisError("rhs: condition operand %s not decidable" % ast.unparse(e))
+
+        def cond(t):
+            if isinstance(t, ast.Compare) and len(t.ops) == 1 and isinstance(t.ops[0], (ast.Eq, ast.NotEq)):
+                a, b = val(t.left), val(t.comparators[0])
+                return (a == b) if isinstance(t.ops[0], ast.Eq) else (a != b)
+            if isinstance(t, ast.BoolOp):
+                vs = [cond(x) for x in t.values]
+                return all(vs) if isinstance(t.op, ast.And) else any(vs)
+            if isinstance(t, ast.UnaryOp) and isinstance(t.op, ast.Not):
+                return not cond(t.operand)
+            raise AnalysisError("rhs: condition %s not decidable" % ast.unparse(t))
+        plan = []
+
+        def block(stmts):
+            for st in stmts:
+                if isinstance(st, ast.If):
+                    refs_num = any(isinstance(n, ast.Attribute) and n.attr == "num" for n in ast.walk(st.test))
+                    if refs_num:
+                        block(st.body if cond(st.test) else st.orelse)
+                    else:
+                        # other conditions (sources present?): stages inside are taken as executed
+                        block(st.body)
+                        block(st.orelse)
+                    continue
+                for n in ast.walk(st):
+                    if isinstance(n, ast.Call) and isinstance(n.func, ast.Attribute) and isinstance(n.func.value, ast.Name) and n.func.value.id == sn:
+                        plan.append(n.func.attr)
+        block(rhs.node.body)
+        return plan
+
     def interp_face(self, ci, num):
         f = self.proj.resolve(ci, "interp_face")
         if f is None:
